@@ -370,6 +370,14 @@ fn handle_established(
                 tcb.retx_attempts = 0;
                 tcb.egress_since_ack = 0;
             }
+            // Likewise a peer that answers data in flight with "window
+            // closed" (it had no room, e.g. because we acted on a stale,
+            // overtaken window update) is alive and merely refusing:
+            // that transmission was not lost and is not charged to the
+            // retransmit budget.
+            if s.window == 0 && acked == 0 && tcb.snd_nxt != tcb.snd_una {
+                tcb.retx_attempts = 0;
+            }
             tcb.snd_wnd = s.window;
             wake_write = true;
         }
